@@ -849,6 +849,7 @@ def execute(plan, tape):
     res.inter_sig = digest_of(hist, blog)
     res.nontrivial = bool(shared)
     res.digest = digest_of(hist, blog, ctl.log, sim.log, res.fps, res.vclass, res.signature)
+    res.rdigest = digest_of(sorted(hist, key=lambda h: h[0]), sorted(res.fps), res.vclass, res.signature)
     return res
 
 
